@@ -166,12 +166,37 @@ pub fn run(run: &mut Run) {
             }
         }
     }
+    // larger populations (rayon splits them into many more jobs than threads): a reduced fault product
+    let big_sizes: Vec<usize> = if quick { vec![17, 64, 65, 257] } else { vec![7, 8, 9, 16, 17, 31, 32, 33, 64, 65, 100, 255, 256, 257, 1000] };
+    for &n in &big_sizes {
+        let plans: Vec<Vec<usize>> = vec![vec![], vec![0], vec![n - 1], vec![n / 2], vec![0, n - 1], vec![n / 3, n / 2]];
+        for plan in plans {
+            configs += 1;
+            execs += 1;
+            if let (Some((k, w)), _) = execute(false, n, &plan, None) {
+                run.violation(format!("serial_next/{k}"), format!("serial_next, population {n}, failing calls {plan:?}: {w}"), json!({"check":"C09","variant":"serial","n":n,"fail":plan,"threads":0}));
+            }
+            for (pi, t) in pools.iter().enumerate() {
+                if ![1usize, 2, 3, 8, 16].contains(t) {
+                    continue;
+                }
+                configs += 1;
+                for _ in 0..if quick { 3 } else { 20 } {
+                    execs += 1;
+                    if let (Some((k, w)), _) = execute(true, n, &plan, Some(&built[pi])) {
+                        run.violation(format!("par_next/{k}"), format!("par_next, population {n}, failing calls {plan:?}, {t} threads: {w}"), json!({"check":"C09","variant":"par","n":n,"fail":plan,"threads":t}));
+                    }
+                }
+            }
+        }
+    }
+    run.bound("tierA.large_populations", json!(big_sizes));
     run.states = configs;
     run.evaluations = execs;
     run.transitions = execs;
     run.traces_validated = execs;
     run.distinct_nontrivial = err_paths * 17;
-    run.rule = "tier A: {serial_next, par_next} x population size 0..6 x failure plans {none, every single call, every pair of calls} x rayon pool size 1..16, each configuration executed several times on real threads; oracle independent of the schedule (size preserved, every child made from the unmodified previous population, pairwise distinct random words, on error: population identical and error among the injected ones). Tier B (merged below when available): all schedules of the rayon model for N <= 3/4. non-trivial = configurations with at least one injected failure".into();
+    run.rule = "tier A: {serial_next, par_next} x population size 0..6 x failure plans {none, every single call, every pair of calls} x rayon pool size 1..16, each configuration executed several times on real threads; larger populations (17..257, thorough ..1000) with a reduced failure product; oracle independent of the schedule (size preserved, every child made from the unmodified previous population, pairwise distinct random words, on error: population identical and error among the injected ones). Tier B (merged below when available): all schedules of the rayon model for N <= 3/4. non-trivial = configurations with at least one injected failure".into();
     run.bound("tierA.max_population", json!(max_n));
     run.bound("tierA.pool_sizes", json!("1..=16"));
     run.bound("tierA.failure_deviation_bound", json!(2));
